@@ -355,6 +355,18 @@ pre_reset_vscript(void *epv, void *arg)
 		ep->xw->force_pkey = &padded;
 		break;
 	}
+	case 8: case 9: case 10: case 11: {
+		/* RSA modulus just beyond / far beyond the 512-byte work area of the engine (sizes 513, 519, 520, 1100) */
+		static br_x509_pkey big; static unsigned char bn[1100];
+		static const size_t bl[4] = { 513, 519, 520, 1100 };
+		size_t L = bl[vs->pkey_kind - 8], q;
+		big = pk_srv_rsa.ta.pkey;
+		for (q = 0; q < L; q ++) bn[q] = (unsigned char)(0xC3 + 7 * q);
+		bn[0] |= 0x80; bn[L - 1] |= 1;
+		big.key.rsa.n = bn; big.key.rsa.nlen = L;
+		ep->xw->force_pkey = &big;
+		break;
+	}
 	case 7: {
 		static br_x509_pkey tiny; static unsigned char tn[40];
 		tiny = pk_srv_rsa.ta.pkey;
@@ -712,6 +724,16 @@ auth_scenarios(long long seed)
 			vs.pkey_kind = 7;
 			run_scenario(&sc, NULL, 0, 0, &o, pre_reset_vscript, &vs, NULL, NULL, NULL, NULL);
 			expect_refused("validator-returns-320-bit-rsa-key", &o, 0);
+			{
+				int kk;
+				for (kk = 8; kk <= 11; kk ++) {
+					char nm[80];
+					vs.pkey_kind = kk;
+					run_scenario(&sc, NULL, 0, 0, &o, pre_reset_vscript, &vs, NULL, NULL, NULL, NULL);
+					snprintf(nm, sizeof nm, "validator-returns-oversized-rsa-key-%d", kk - 8);
+					expect_refused(nm, &o, 0);
+				}
+			}
 			vs.pkey_kind = 6;
 			run_scenario(&sc, NULL, 0, 0, &o, pre_reset_vscript, &vs, NULL, NULL, NULL, NULL);
 			vf_stat("auth_controls", 1);
@@ -910,7 +932,7 @@ main(int argc, char **argv)
 	unsigned v;
 	long gidx = 0;
 
-	tp_prop = "C03";
+	tp_prop = vf_arg(argc, argv, "--prop", "C03");
 	tp_fixtures();
 	/* scenario list: priority order so that the first `full_scen` are diverse */
 	{
